@@ -28,9 +28,8 @@ ASSUMPTIONS = [
     "'true separation in the graph': the theorems ci_sound/ci_complete/ci_unique/ci_minimum/ci_total are parametric in any "
     "separation test that is symmetric and set-valued in C (GoodTest); ci_exact instantiates them with the C04 model and, "
     "through C04's dsep_iff_dsep_canonical (fully proved), states them for d-separation in the canonical latent DAG",
-    "ci_exact is conditional on the call returning; ci_total_lenLex shows it returns for _len_lex; for the default topological "
-    "policy returning needs every vertex to occur in the model's topological_sort output (ci_total's hypothesis), which is "
-    "C14's topological_sort clause (correspondence + oracle there, no theorem)",
+    "ci_exact is stated for a call that returns; ci_total_admg shows the call returns on every ADMG for both policies (it uses "
+    "the lemmas topologicalSort_total / topologicalSort_complete about the shared Kahn model, proved on branch `latent`, merged here)",
     "Python iterates a set of vertices (hash order) where the model iterates the sorted vertex list: with return_all=False the "
     "particular minimum-size conditioning set kept for a pair may differ, so correspondence compares (left, right, size) there "
     "and the exact sets only with return_all=True + _len_lex; the theorems hold for every duplicate-free vertex order",
@@ -269,7 +268,7 @@ def finding_key(case, res):
 
 
 MANIFEST = {
-    "text": ("Proof: 17 Lean theorems about the executable model of d_separations / minimal / the two built-in policies / powerset / "
+    "text": ("Proof: 18 Lean theorems about the executable model of d_separations / minimal / the two built-in policies / powerset / "
              "get_conditional_independencies (the code after the fix of defect F6), parametric in ANY separation test that is "
              "symmetric in (a, b) and depends on C only as a set, for every duplicate-free vertex order, every size limit (none or "
              "k), both policies, return_all on or off — whenever the call returns R: every listed judgement passes the test, is "
@@ -277,13 +276,12 @@ MANIFEST = {
              "(ci_sound); every pair that some admissible set within the limit separates is listed (ci_complete); no two listed "
              "judgements share (left, right) (ci_unique); no separating set of any size is smaller than the listed one "
              "(ci_minimum); the call returns for _len_lex always and for the topological policy when every vertex occurs in the "
-             "order (ci_total). ci_exact instantiates all of this with the are_d_separated model and, via property C04's "
+             "order (ci_total), hence on every ADMG (ci_total_admg). ci_exact instantiates all of this with the are_d_separated model and, via property C04's "
              "dsep_iff_dsep_canonical, states it for true d-separation in the canonical latent DAG. Tied to the code on every "
              "run by differential correspondence (results, and powerset with its order); an independent brute-force oracle over "
              "all pairs and all subsets (path enumeration in the canonical latent DAG) searches for a failing input."),
     "note": ("Trusted: Lean kernel; axioms propext/Classical.choice/Quot.sound; hand-written model tied to the code by sampling; "
              "Python set iteration order (hash order) is modelled as sorted order — the theorems hold for every order, the "
-             "correspondence compares exactly only what the Python result determines. Totality under the default topological "
-             "policy rests on C14's topological_sort clause (no theorem there)."),
+             "correspondence compares exactly only what the Python result determines."),
     "technique": "Lean 4 theorems (list reasoning over combinations/powerset/first-hit search/min-by-key, parametric in the test) + differential correspondence + brute-force oracle over all pairs and subsets",
 }
